@@ -2,6 +2,8 @@ SPECIFICATION Spec
 CONSTANTS
   MaxPerFamily = 3
   Patience = 3
+  LateAfter = 0
+  InlineLast = FALSE
 INVARIANT SucceedsIffSomeAccepts
 INVARIANT WinnerAccepted
 INVARIANT HonestFailure
